@@ -146,20 +146,30 @@ def check_residual(case):
 def check_newton(case):
     o = Out()
     s = cat.make_solver(case)
-    cat.quiet(s.solve_jump_conditions)
-    rho, e, D, P = float(s.shocked_density), float(s.shocked_energy), float(s.shock_speed), float(s.shocked_pressure)
     ic = case['ic']
     rho0, u0, P0, sym = ic['density'], ic['velocity'], ic['pressure'], ic['symmetry']
     o.label(case['eos']['cls'], 'sym%d' % sym)
-    o.true('converged shock speed is positive', D > 0, D=D)
-    o.close('shocked pressure is the EOS pressure of the shocked state', P, s.eos.P(rho, e), 1e-9)
-    rho1 = rho0 * (1 - u0 / D) ** sym          # density arriving at the shock (geometric convergence)
-    # jump conditions, upstream (rho1, u0, P0, e0), downstream (rho, 0, P, e), shock speed D
-    m = rho1 * (u0 - D)
-    o.close('mass: rho1 (u0 - D) = -rho D', m, -rho * D, 1e-7)
-    o.close('momentum: P - P0 = rho1 (u0 - D) u0', P - P0, m * u0, 1e-7, scale=abs(P) + abs(m * u0))
-    e0 = s.eos.e(rho0, P0)
-    o.close('energy: e - e0 = u0^2/2 + P0 u0/(rho1 (u0 - D))', e - e0, 0.5 * u0 ** 2 + P0 * u0 / m, 1e-7, scale=abs(e) + u0 ** 2)
+
+    def jump_conditions(which):
+        rho, e, D, P = float(s.shocked_density), float(s.shocked_energy), float(s.shock_speed), float(s.shocked_pressure)
+        o.true(which + 'converged shock speed is positive', D > 0, D=D)
+        o.close(which + 'shocked pressure is the EOS pressure of the shocked state', P, s.eos.P(rho, e), 1e-9)
+        rho1 = rho0 * (1 - u0 / D) ** sym          # density arriving at the shock (geometric convergence)
+        # jump conditions, upstream (rho1, u0, P0, e0), downstream (rho, 0, P, e), shock speed D
+        m = rho1 * (u0 - D)
+        o.close(which + 'mass: rho1 (u0 - D) = -rho D', m, -rho * D, 1e-7)
+        o.close(which + 'momentum: P - P0 = rho1 (u0 - D) u0', P - P0, m * u0, 1e-7, scale=abs(P) + abs(m * u0))
+        e0 = s.eos.e(rho0, P0)
+        o.close(which + 'energy: e - e0 = u0^2/2 + P0 u0/(rho1 (u0 - D))', e - e0, 0.5 * u0 ** 2 + P0 * u0 / m, 1e-7, scale=abs(e) + u0 ** 2)
+        return rho, e, D
+    cat.quiet(s.solve_jump_conditions)
+    first = jump_conditions('')
+    # the public mutators allow a second solve on the same object (new initial guess): its result must be a solution again
+    if case.get('guess') is not None:
+        s.set_new_solver_initial_guess([g * 1.03 for g in first])
+        cat.quiet(s.solve_jump_conditions)
+        second = jump_conditions('second solve on the same object: ')
+        o.close('second solve on the same object: same shocked state', second, first, 1e-6)
     o.nontrivial = case['eos']['cls'] != 'ideal_gas_eos' or abs(case['gamma'] - 5 / 3) > 1e-9
     return o
 
